@@ -21,17 +21,63 @@ ASSUMPTIONS = ["asyncio timer order as on the virtual clock"]
 def scripts(env):
     cfg = msglayer.default_cfg()
     out = [c["script"] for _, c in load_corpus("C10") if "script" in c]
-    out += G.c10_table()
+    out += G.c10_table(cfg)
     out += [G.c10_random(env.rng, cfg) for _ in range(env.scale(100, 4000))]
     return out
 
 
+def observable(res):
+    """what the peers and the applications see of a run"""
+    return {"wire": [tuple(w) for w in res["wire"]],
+            "deliveries": [(d["tick"], d["srv"]) for d in P.deliveries(res)],
+            "responses": sorted((r, tuple(map(tuple, v))) for r, v in P.responses(res).items()),
+            "fails": sorted((r, tuple(map(tuple, v))) for r, v in P.fails(res).items())}
+
+
+def check_misfits_inert(env, rep, all_scripts):
+    """"messages whose code and type do not fit are ignored": a run must be the same with and without them"""
+    pairs = []
+    for sc in all_scripts:
+        mis = [e for e in sc["events"] if e[0] == "R" and G.is_misfit(e[4], e[5])]
+        if not mis or any(e[0] == "N" for e in sc["events"]):
+            continue
+        twin = dict(sc, events=[e for e in sc["events"] if e not in mis], tag=sc.get("tag", "") + ":without-misfits")
+        pairs.append((sc, twin))
+    results = P.run_scripts(env, [x for p in pairs for x in p])
+    for k, (sc, twin) in enumerate(pairs):
+        a, b = results[2 * k], results[2 * k + 1]
+        for r in (a, b):
+            if "crash" in r:
+                raise P.HarnessError(f"scenario crashed: {r['crash']}\n{r.get('tb')}")
+        rep.count("misfit-twin")
+        oa, ob = observable(a), observable(b)
+        if oa != ob:
+            what = [k2 for k2 in oa if oa[k2] != ob[k2]]
+            mis = [e for e in sc["events"] if e[0] == "R" and G.is_misfit(e[4], e[5])]
+            rep.oracle_fail({"script": sc, "twin": twin},
+                            f"misfit-not-ignored: the run differs ({', '.join(what)}) from the same run without the "
+                            f"message(s) whose code and type do not fit {[(e[4], e[5], e[6]) for e in mis]}",
+                            key="C10:misfit-not-ignored")
+
+
 def run(env, rep):
     env.import_repo()
-    P.check_scripts(env, rep, "C10", scripts(env), P.oracle_c10,
+    all_scripts = scripts(env)
+    P.check_scripts(env, rep, "C10", all_scripts, P.oracle_c10,
                     lambda res: bool(res["wire"]) or bool(P.deliveries(res)))
+    check_misfits_inert(env, rep, all_scripts)
     rep.exhaustive_parts.append("type x code-class x token x multicast table (160 scripts)")
+    rep.exhaustive_parts.append("type x code-class x token aimed at the message ID of an exchange in flight, alone and "
+                                "followed by a genuine request under that ID (160 scripts, each also run without "
+                                "its misfit)")
+    rep.exhaustive_parts.append("second request (CON/NON) on the token of an unacknowledged CON request x gap "
+                                "around EMPTY_ACK_DELAY x handler speed x same/other endpoint (36 scripts)")
 
 
 def replay(env, case):
+    if "twin" in case:
+        env.import_repo()
+        a, b = P.run_scripts(env, [case["script"], case["twin"]])
+        oa, ob = observable(a), observable(b)
+        return "" if oa == ob else "misfit-not-ignored: " + ", ".join(k for k in oa if oa[k] != ob[k])
     return replay_with(env, case, P.oracle_c10)
